@@ -253,7 +253,10 @@ pub fn safety_job(job: &J) -> J {
     stage("lex", &mut || {
         let mut n = 0usize;
         for t in koto_lexer::Lexer::new(&src) {
-            let _ = t.slice(&src);
+            // the text of every token that is not an error token (C09: those lie on character boundaries)
+            if t.token != koto_lexer::Token::Error {
+                let _ = t.slice(&src);
+            }
             n += 1;
             if n > 1_000_000 {
                 break;
